@@ -637,7 +637,9 @@ import glob as _glob
 import hashlib as _hashlib
 
 INPROC_SEEDS = [bytes([2, 5, 9, 0, 1, 1, 2, 1, 1, 6, 1, 1, 4, 1, 1, 7, 1, 1, 9, 1, 1, 17, 1, 1, 23, 1, 1]),
-                bytes([0, 0, 1, 1, 30, 1, 1, 26, 1, 1]), bytes([3, 1, 2, 3, 201]) + b"5 N \xff" + bytes([0, 2, 2])]
+                bytes([0, 0, 1, 1, 30, 1, 1, 26, 1, 1]), bytes([3, 1, 2, 3, 201]) + b"5 N \xff" + bytes([0, 2, 2]),
+                bytes([3, 200, 100, 255, 0, 1, 1, 231, 1, 90, 2, 1, 1, 4, 1, 1, 6, 1, 1, 7, 1, 1]),
+                bytes([2, 255, 255, 0, 2, 1, 226, 2, 140, 2, 2, 1])]
 
 
 def build_inproc():
